@@ -310,6 +310,22 @@ reg(
 )
 
 
+reg(
+    "C03",
+    "other",
+    "Structural clauses of the Elias-Fano cursor: on every path that stores a position to `high_pos`, that position is trailing_zeros of the value kept in "
+    "`remaining_bits`, or `remaining_bits` is masked by a mask computed from that position (COUPLED: the representation invariant 'lowest set bit of remaining_bits is "
+    "the current element' is re-established by every mutation path of advance_one / advance_by / seek / cursor / cursor_from); the sampled select reader divides by the "
+    "builder's rate (SAMPLEIDX). Encoding/decoding arithmetic and predecessor search are not decided.",
+    [
+        only_cfgs(_lazy("structrules", "rule_cursor_coupling"), ["cli"]),
+        only_cfgs(_lazy("structrules", "rule_sampleidx", floor=9), ["cli"]),
+    ],
+    quick=["cli"],
+    technique="def-use coupling (typestate) rule over MIR field stores; sample-index derivation rule",
+)
+
+
 def run(pid, tier, only=None, replay=None):
     if pid not in REGISTRY:
         print("property %s is not claimed (see MANIFEST.not_applicable)" % pid)
